@@ -37,6 +37,9 @@ func init() {
 			ruleDecoderBounds(c, r, "")
 			ruleReaderWindow(c, r, "")
 			ruleNilOnErr(c, r, "")
+			ruleLitInit(c, r, "")
+			ruleReadAdvance(c, r, "")
+			ruleNilDecoder(c, r, "")
 			ruleXZReaderBounds(c, r)
 			t := getChunkTables(c, r, "")
 			ruleControlByte(c, r, t, "", true)
